@@ -6,9 +6,12 @@ TECH = "solver-based: bounded symbolic model checking of the compiled Rust sourc
 NOTE_BASE = ("Trusted: Kani/CBMC/CaDiCaL; the heap-free container models in /verif/models standing in for slotmap, hashlink and "
              "std HashMap/HashSet (validated natively against the real crates by setup_cmd); two function stubs (insertion sort, "
              "Option::as_ref); a violation is only reported after the solver's counterexample reproduces natively against the real crates.")
-MECH = ("Mechanism level: the quantifier over whole programs x histories is NOT discharged. What the solver decides is the local step "
+MECH = ("Mechanism level plus a few whole top-down sessions of small scripted programs (see evidence bounds.session_level). Mechanism level: the quantifier over whole programs x histories is NOT discharged. What the solver decides is the local step "
         "the property rests on, for every value of the symbolic inputs, from pre-states built with the crate's own store API. ")
 CLAIMS = {
+ "C01": ("Bounded, session level: for the listed small programs (<= 4 scripted tasks, 3 cells) and histories build / one solver-chosen external change / build / build, "
+         "run through the real top-down build code, the returned output and all resource contents equal a from-scratch evaluation of the same programs on the "
+         "current state. Longer histories, bottom-up builds and file resources are outside the claim.", "§4 C01"),
  "C12": ("Decided in full for the instantiations O=u8 and O=Result<u8,u8>: for every pair of outputs (o1,o2) and each of the five "
          "checkers (typed API and the object-safe OutputCheckerObj proxy), check(o2, stamp(o1)) is consistent exactly when the "
          "documented relation holds. No loops are involved, so there is no unwinding bound; other payload types are outside the claim.", "§4 C12"),
@@ -47,12 +50,11 @@ CLAIMS = {
          "resource state. Multi-key-type isolation is outside the claim (harness exceeds the memory cap).", "§4 C14"),
 }
 NA = {
- "C01": "needs whole sessions over histories: states produced by real (nested) task executions do not get through CBMC's symbolic execution within the caps (DESIGN §2, §6)",
- "C03": "needs a whole bottom-up build; executing a task through BottomUpContext explodes under CBMC (measured, DESIGN §2)",
+ "C03": "needs a whole bottom-up build; a task object taken out of the store (trait object inside an enum variant) is not constant-folded by Kani/CBMC, so executing it bottom-up explores every task program and merges (measured, DESIGN §2, §6)",
  "C13": "file checkers are thin layers over filesystem syscalls, SystemTime and SHA-256 over file content: not encodable (FFI) / textbook weak target (DESIGN §6)",
  "C16": "the only hash-order-dependent code (DAG::reorder_nodes) was encoded with a solver-chosen iteration order, but the harness does not finish within the cap (20 min); event-stream equality needs whole sessions (DESIGN §6)",
  "C19": "needs execution to continue after a panic; Kani models panic as abort and has no catch_unwind (DESIGN §6)",
- "C20": "needs histories of whole sessions in which tasks change roles (DESIGN §6)",
+ "C20": "needs histories in which tasks change roles; the two role-inversion patterns that the property text itself calls recorded findings are not enumerated there, so a check could not tell a finding from a violation (DESIGN §6)",
 }
 NOT_BUILT = "check not built yet in this round (see DESIGN.md §4 for the plan)"
 ALL = ["C%02d" % i for i in range(1, 21)]
